@@ -61,7 +61,12 @@ inline SeqProg decode_seq(hz::Reader &r) {
 static const char *pn[] = {"default_storage", "reusable_storage", "reusable_storage_mtsafe", "stack_storage(alloca + heap fallback)", "placement_alloc", "reusable_buffer_storage<vector<char>>", "promise_extra_storage<Extra, default_storage>"};
 inline std::string describe_seq(const SeqProg &p) {
     hz::Desc d; d << pn[p.policy] << ", " << (unsigned)p.ops.size() << " ops:";
-    for (auto &o : p.ops) { if (o.code < 2 || o.code == 3) d << " create(size class " << (unsigned)(o.a % 3) << ")"; else d << " complete(#" << (unsigned)o.a << ")"; }
+    for (auto &o : p.ops) {
+        if (o.code == 2) { d << " complete(#" << (unsigned)o.a << ")"; continue; }
+        if (p.policy != P_STACK && o.code == 3 && (o.a & 4)) d << " [movable policy with no live frame: move the storage object away and back; otherwise:]";
+        d << " create(size class " << (unsigned)(o.a % 3) << ")";
+        if (p.policy == P_STACK && (o.a & 8)) d << "+create(size class " << (unsigned)((o.a >> 4) % 3) << " in the same storage object)";
+    }
     d << "; complete the rest";
     return d.s;
 }
@@ -138,17 +143,26 @@ struct SeqRun {
     bool larger_seen(int sc) { for (int k = sc + 1; k < 3; k++) if (size_seen[k]) return true; return false; }
 
     // stack_storage: memory comes from alloca in the caller's frame, so the coroutine lives inside one call
-    void stack_once(std::size_t &state, int sc, bool expect_no_heap) {
+    // one storage object serves the coroutines of this call one after another (a single live frame at a time)
+    // model of the shared state: the size class of the LAST heap fallback (the library stores that frame's size, not a maximum)
+    void stack_once(std::size_t &state, int sc, int sc2, int &learned) {
+        const int block_sc = learned;
         tracked<cocls::stack_storage> storage(state);
         storage = alloca(storage);
-        Frame &f = new_frame(sc);
-        hz::measure_begin();
-        f.result.reset(new cocls::future<int>(create(storage, sc, f.gate.f.get(), next_id++)));
-        unsigned long news = hz::measure_end() - 1;
-        st.creates++;
-        if (expect_no_heap) { HZ_CHECK(news == 0, "stack storage used the heap (%lu allocations) for a frame size its shared state had already learned", news); st.reuse_hits++; }
-        else if (news) st.fallbacks++;
-        complete(f);
+        for (int round = 0; round < (sc2 >= 0 ? 2 : 1); round++) {
+            int c = round ? sc2 : sc;
+            // the block on the stack was sized from the shared state at entry: a frame fits iff its size class had been learned by then
+            bool fits = c <= block_sc;
+            if (!fits) learned = c;
+            Frame &f = new_frame(c);
+            hz::measure_begin();
+            f.result.reset(new cocls::future<int>(create(storage, c, f.gate.f.get(), next_id++)));
+            unsigned long news = hz::measure_end() - 1;
+            st.creates++;
+            if (fits) { HZ_CHECK(news == 0, "stack storage used the heap (%lu allocations) for a frame size its shared state had already learned", news); st.reuse_hits++; }
+            else { HZ_CHECK(news >= 1, "a frame larger than the block on the stack was not given heap memory (it was placed into the too small block)"); st.fallbacks++; }
+            complete(f);
+        }
     }
     void run(const SeqProg &p) {
         switch (p.policy) {
@@ -156,8 +170,12 @@ struct SeqRun {
             case P_REUSABLE: { tracked<cocls::reusable_storage> a; history(a, p, true, true, false); } break;
             case P_REUSABLE_MT: { tracked<cocls::reusable_storage_mtsafe> a; history(a, p, false, true, true); } break;
             case P_STACK: {
-                std::size_t state = 0; int max_sc = -1;
-                for (auto &o : p.ops) { if (o.code == 2) continue; int sc = o.a % 3; stack_once(state, sc, sc <= max_sc); if (sc > max_sc) max_sc = sc; }
+                std::size_t state = 0; int learned = -1;
+                for (auto &o : p.ops) {
+                    if (o.code == 2) continue;
+                    int sc = o.a % 3, sc2 = (o.a & 8) ? (o.a >> 4) % 3 : -1;
+                    stack_once(state, sc, sc2, learned);
+                }
             } break;
             case P_PLACEMENT: {
                 std::vector<char> buf(8192); tracked<cocls::placement_alloc> a(buf.data());
